@@ -2,7 +2,7 @@
 callables), extraction of the callable description the Lean model needs (through the same stdlib introspection the
 library uses: inspect.signature / getfullargspec / getsource / ismethod), call generation, execution of the decorated
 callable and of its undecorated twin, canonical outcomes."""
-import sys, os, json, random, inspect, importlib.util, tempfile, shutil, asyncio, collections, collections.abc, typing, io, contextlib
+import sys, os, json, random, inspect, types, importlib.util, tempfile, shutil, asyncio, collections, collections.abc, typing, io, contextlib
 import _checker_common as K
 
 ANN_POOL = ['int', 'int', 'str', 'float', 'bool', 'List[int]', 'list[int]', 'Dict[str, int]', 'Optional[int]', 'Union[int, str]',
@@ -46,10 +46,43 @@ def lit_src(r, ann):
     return bad, None     # conformance unknown: the spec decides
 
 
+def gen_property(r, idx, profile='mixed'):
+    """a property with getter, (usually) setter and (sometimes) deleter in a @pedantic_class class or decorated directly"""
+    def pick():
+        if profile == 'incomplete' and r.random() < 0.3:
+            return r.choice([None] + BARE_POOL)
+        x = r.random()
+        return r.choice(ANN_POOL) if x < 0.94 else (None if x < 0.97 else r.choice(BARE_POOL))
+    ann = pick()
+    ret = ann if r.random() < 0.7 else pick()
+    setter = r.random() < 0.85
+    deleter = r.random() < 0.5
+    direct = r.random() < 0.35
+    setret = r.choice([' -> None'] * 6 + ['', ' -> int'])
+    delret = r.choice([' -> None'] * 6 + [''])
+    name = r.choice([f'f{idx}'] * 5 + [f'_f{idx}', f'f{idx}__'])
+    cls = f'K{idx}'
+    ped = '    @pedantic\n' if direct else ''
+    def block(deco, sig, retann, p):
+        return f'    {deco}\n{p}    def {name}({sig}){retann}:\n        return _BODY({idx}, locals())\n'
+    parts = [('@property', 'self', f' -> {ret}' if ret else '')]
+    if setter:
+        parts.append((f'@{name}.setter', 'self, v' + (f': {ann}' if ann else ''), setret))
+    if deleter:
+        parts.append((f'@{name}.deleter', 'self', delret))
+    src = ('' if direct else '@pedantic_class\n') + f'class {cls}:\n' + ''.join(block(d, sg, rt, ped) for d, sg, rt in parts)
+    twin = f'class {cls}:\n' + ''.join(block(d, sg, rt, '') for d, sg, rt in parts)
+    access = [('propget', cls, name)] + ([('propset', cls, name)] if setter else []) + ([('propdel', cls, name)] if deleter else [])
+    return {'src': src, 'twin': twin, 'access': access, 'kind': 'prop_direct' if direct else 'prop_class', 'name': name, 'cls': cls, 'idx': idx,
+            'flavour': 'sync', 'needle': None, 'stack': 'none', 'alias': False}
+
+
 def gen_callable(r, idx, profile='mixed'):
     """one decorated callable: returns {'src', 'twin', 'access': [...], 'kind', 'name', 'cls'}"""
     kind = r.choice(['plain'] * 5 + ['inst_direct', 'inst_class', 'inst_class', 'static_class', 'class_class', 'static_direct',
-                                    'dunder_class', 'require_kwargs', 'require_kwargs_method'])
+                                    'dunder_class', 'require_kwargs', 'require_kwargs_method', 'prop_class'])
+    if kind == 'prop_class':
+        return gen_property(r, idx, profile)
     flavour = r.choice(['sync'] * 6 + ['coroutine'] * 2)
     n = r.randint(0, 3)
     params = []
@@ -431,6 +464,12 @@ class Programs:
         if acc[0] == 'cls':
             return getattr(c, acc[2]), None
         inst = c()
+        if acc[0] == 'propget':
+            return (lambda: getattr(inst, acc[2])), inst
+        if acc[0] == 'propset':
+            return (lambda v: setattr(inst, acc[2], v)), inst
+        if acc[0] == 'propdel':
+            return (lambda: delattr(inst, acc[2])), inst
         return getattr(inst, acc[2]), inst
 
     def raw_of(self, F, acc):
@@ -440,7 +479,24 @@ class Programs:
             obj = inspect.getattr_static(getattr(self.mod, acc[1]), acc[2])
             if isinstance(obj, (staticmethod, classmethod)):
                 obj = obj.__func__
-        return find_raw(obj)
+            if isinstance(obj, property):
+                obj = {'propget': obj.fget, 'propset': obj.fset, 'propdel': obj.fdel}[acc[0]]
+        raw, mode = find_raw(obj)
+        if raw is None:
+            # the member is not wrapped by the library although the program decorates it (a decorator that silently leaves a
+            # member undecorated must not hide it from the check): describe the undecorated twin, expect the decorated behaviour
+            t = getattr(self.twin, acc[1]) if acc[0] == 'mod' else inspect.getattr_static(getattr(self.twin, acc[1]), acc[2])
+            if isinstance(t, (staticmethod, classmethod)):
+                t = t.__func__
+            if isinstance(t, property):
+                t = {'propget': t.fget, 'propset': t.fset, 'propdel': t.fdel}[acc[0]]
+            for _ in range(4):
+                if not hasattr(t, '__wrapped__'):
+                    break
+                t = t.__wrapped__
+            if isinstance(t, types.FunctionType):
+                return t, ('requireKwargs' if F.get('kind', '').startswith('require_kwargs') else 'pedantic')
+        return raw, mode
 
 
 # ------------------------------------------------------------------ cases for the plugins
@@ -454,10 +510,12 @@ def meaningful(o):
 
 
 def real_pedantic(kind, alias):
-    return kind in ('plain', 'inst_direct', 'static_direct', 'require_kwargs', 'require_kwargs_method') and not alias
+    return kind in ('plain', 'inst_direct', 'static_direct', 'require_kwargs', 'require_kwargs_method', 'prop_direct') and not alias
 
 
 def implicit_of(kind, acc):
+    if acc[0] in ('propget', 'propset', 'propdel'):
+        return 1
     return 1 if (acc[0] == 'inst' and kind in ('inst_direct', 'inst_class', 'dunder_class', 'static_class', 'class_class',
                                                'require_kwargs_method')) else 0
 
@@ -484,7 +542,8 @@ def execute(P, F, acc, pos, kw, body):
         got = [i for i in received_ids(journal, caller_objs) if meaningful(caller_objs[i])]
         mean = [i for i, o in enumerate(caller_objs) if meaningful(o)]
         if out == 'RET':
-            if res is script[1]: out = 'RET'
+            if acc[0] in ('propset', 'propdel'): out = 'RET'      # attribute assignment / deletion: Python drops what the function returns
+            elif res is script[1]: out = 'RET'
             elif type(res).__name__ == 'GeneratorWrapper': out = 'RETGEN'
             else: out = 'RET:other'
         binding = {}
@@ -522,11 +581,14 @@ def build_cases(rng, n_callables, calls_per=4, profile='mixed', style=None, tag=
                 except ValueError:
                     continue
                 for _ in range(calls_per):
-                    pos, kw = gen_call(rng, F, desc, style)
+                    isprop = acc[0] in ('propget', 'propset', 'propdel')
+                    pos, kw = gen_call(rng, F, desc, 'posall' if isprop else style, bad_range=3 if isprop else 8)   # attribute access: Python passes positionally
+                    if isprop:
+                        kw = []           # attribute access has no keywords
                     body = gen_body(rng, desc)
                     impl = execute(P, F, acc, pos, kw, body)
                     implicit = implicit_of(F['kind'], acc)
-                    truth = {'realStatic': F['kind'] in ('static_class', 'static_direct'), 'realSetter': False,
+                    truth = {'realStatic': F['kind'] in ('static_class', 'static_direct'), 'realSetter': acc[0] == 'propset',
                              'realPedantic': real_pedantic(F['kind'], F.get('alias', False)), 'implicit': implicit}
                     mbody = ['raises', 0] if body[0] == 'raises' else body
                     cases.append({'m': 'calllayer',
